@@ -42,6 +42,7 @@ Proof.
   { intros o hc hc' q' Hr. apply ret_inv in Hr. destruct Hr as [_ ->]. left. reflexivity. }
   assert (Hret : forall q hc hc' q', KS key q -> ret q hc = (hc', ROk q') -> KS key q').
   { intros q hc hc' q' Hq Hr. apply ret_inv in Hr. destruct Hr as [_ ->]. exact Hq. }
+  destruct (is_dis n) eqn:Edis; [eapply Hun; exact H|].
   destruct (nk n) eqn:K.
   - apply ret_inv in H. destruct H as [_ ->]. unfold KS. cbn [fst]. destruct (handles n key); [left|right]; reflexivity.
   - destruct (is_empty n); [eapply Hun; exact H|].
@@ -116,7 +117,7 @@ Proof. unfold focus_child, fc_node. destruct (getn h id); reflexivity. Qed.
 
 Definition shape_eq (n0 n : node) : Prop :=
   nk n = nk n0 /\ n_sel n = n_sel n0 /\ n_selc n = n_selc n0 /\ items n = items n0 /\
-  n_a n = n_a n0 /\ n_b n = n_b n0 /\ n_d n = n_d n0 /\ n_part n = n_part n0.
+  n_a n = n_a n0 /\ n_b n = n_b n0 /\ n_d n = n_d n0 /\ n_part n = n_part n0 /\ n_deco n = n_deco n0.
 
 Section Landed.
 Variable h0 : heap.
@@ -130,7 +131,8 @@ Lemma sel_transfer h : I h -> forall f c, sel f h c = true -> sel f h0 c = true.
 Proof.
   intros HI f. induction f as [|f IH]; intros c H; [discriminate|]. cbn [sel] in *.
   destruct (getn h c) as [n|] eqn:G; [|discriminate].
-  destruct (HI c n G) as (n0 & G0 & (K & S1 & S2 & S3 & S4 & _) & _). rewrite G0. rewrite K in H.
+  destruct (HI c n G) as (n0 & G0 & (K & S1 & S2 & S3 & S4 & _ & _ & _ & S8) & _). rewrite G0.
+  unfold is_dis in *. rewrite S8 in H. destruct (n_deco n0 =? 2); [discriminate|]. unfold sel_node in *. rewrite K in H.
   destruct (nk n0); try congruence.
   - rewrite S3 in H. apply existsb_exists in H. destruct H as (x & Hx & Hs). apply existsb_exists. exists x. split; [exact Hx|apply IH; exact Hs].
   - rewrite S4 in H. apply IH. exact H.
@@ -164,7 +166,7 @@ Proof.
   destruct ((id' =? id) && (0 <=? id) && (id <? zlen h)) eqn:Eid; [|exact (HI id' n' G')].
   injection G' as <-. assert (id' = id) by lia. subst id'.
   destruct (HI id n G) as (n0 & G0' & S & Hp & Hl). exists n0. split; [exact G0'|].
-  destruct S as (K & S1 & S2 & S3 & S4 & S5 & S6 & S7).
+  destruct S as (K & S1 & S2 & S3 & S4 & S5 & S6 & S7 & S8).
   split; [repeat split; try assumption; unfold items; cbn [n_c set_c]; rewrite Hi; exact S3|]. split; [exact Hp|].
   intros c Hc.
   assert (Hit : items (set_c n s') = items n) by (unfold items; cbn [n_c set_c]; exact Hi).
@@ -260,8 +262,8 @@ Qed.
 
 Lemma L_mc f : forall id col row, pres I (mc f id col row).
 Proof.
-  induction f as [|f IH]; intros id col row; cbn [mc]; [apply pres_raise|].
-  apply pres_rd_fact. intros n Hn. destruct (nk n).
+  induction f as [|f IH]; intros id col0 row; cbn [mc]; [apply pres_raise|].
+  apply pres_rd_fact. intros n Hn. cbv zeta. set (col := pad_clamp n col0). destruct (nk n).
   - apply pres_raise.
   - (* pile *)
     apply pres_bind; [apply L_w_pref|]. intros _. apply pres_heap_fact. intros hh Hh.
@@ -341,6 +343,7 @@ Lemma L_kp key : is_arrow key = true -> forall f id, pres I (kp f id key).
 Proof.
   intros Ha. induction f as [|f IH]; intros id; cbn [kp]; [apply pres_raise|].
   apply pres_rd_fact. intros n Hn. destruct (read_fact id n Hn) as (n0 & Gn0 & Hit & Hk & Hp & Hl).
+  destruct (is_dis n); [apply pres_ret|].
   destruct (nk n) eqn:K.
   - apply pres_ret.
   - (* pile *) unfold unhandled. repeat lstep.
